@@ -97,10 +97,33 @@ pub fn run_c08(ctx: &mut Ctx, idx: u64) {
         let occ = pt.occurrences(hay);
         for &m in Method::for_kind(kind) {
             let exp = to_m(&model(m, kind, &occ), &case.values);
-            let (gc, _) = pc.search(m, hay, exp.len() + 1, loose_budget(hay.len(), nsc));
-            let (gb, _) = pb.search(m, hay, exp.len() + 1, loose_budget(hay.len(), nsb));
+            let rc = pc.try_search(m, hay, exp.len() + 1, loose_budget(hay.len(), nsc));
+            let rb = pb.try_search(m, hay, exp.len() + 1, loose_budget(hay.len(), nsb));
             ctx.rep.count("method_pairs_compared", 1);
             ctx.rep.count("matches_compared", exp.len() as u64);
+            let (gc, gb) = match (rc, rb) {
+                (Ok(a), Ok(b)) => (a.0, b.0),
+                (Err(_), Err(_)) => {
+                    // both variants panic alike: they do not disagree (C01-C06 decide the panic)
+                    ctx.rep.count("both_variants_panicked", 1);
+                    continue;
+                }
+                (a, b) => {
+                    ctx.rep.violation(
+                        "differential",
+                        format!(
+                            "{} ({}): one variant panics and the other returns: char-wise {}, byte-wise {}",
+                            m.name(),
+                            kind_name(kind),
+                            a.as_ref().err().map_or("returns".to_string(), |e| format!("panics ({e})")),
+                            b.as_ref().err().map_or("returns".to_string(), |e| format!("panics ({e})"))
+                        ),
+                        idx,
+                        J::obj().set("haystack", crate::json::bytes_j(hay)).set("case", case.to_json(40, 200)),
+                    );
+                    continue;
+                }
+            };
             if gc != gb {
                 ctx.rep.violation(
                     "differential",
@@ -111,13 +134,9 @@ pub fn run_c08(ctx: &mut Ctx, idx: u64) {
                 continue;
             }
             if gc != exp {
-                ctx.rep.violation(
-                    "differential-vs-model",
-                    format!("{} ({}): both variants agree with each other but not with the reference model", m.name(), kind_name(kind)),
-                    idx,
-                    mismatch_detail(&case, &spec_c, hay, m, &gc, &exp),
-                );
-                continue;
+                // both variants agree with each other but not with the reference model: C08 itself
+                // holds for this case; the disagreement is C01-C05's business (recorded only)
+                ctx.rep.count("agreeing_results_that_differ_from_the_model", 1);
             }
             for &(s, e, _) in &gc {
                 if !hs.is_char_boundary(s) || !hs.is_char_boundary(e) {
@@ -230,22 +249,27 @@ pub fn run_c11(ctx: &mut Ctx, idx: u64) {
         let occ = pt.occurrences(hay);
         let mut per_m = Vec::new();
         for &m in Method::for_kind(kind) {
-            let (got, _) = base.search(m, hay, usize::MAX, loose_budget(hay.len(), ns));
+            let got = match base.try_search(m, hay, usize::MAX, loose_budget(hay.len(), ns)) {
+                Ok(x) => x.0,
+                Err(e) => {
+                    // the default-setting automaton itself panics: not C11's statement
+                    ctx.rep.count("default_setting_search_panicked", 1);
+                    ctx.rep.note("library_panics", &format!("case {idx}: {e}"));
+                    return;
+                }
+            };
             let exp = to_m(&model(m, kind, &occ), &case.values);
             if got != exp {
-                ctx.rep.violation(
-                    "default-vs-model",
-                    format!("{} with the default setting differs from the reference model", m.name()),
-                    idx,
-                    mismatch_detail(&case, &base_spec, hay, m, &got, &exp),
-                );
-                return;
+                // the default-setting automaton itself disagrees with the model: not C11's statement
+                // (C01-C05 decide it); the settings are still compared with the default
+                ctx.rep.count("default_setting_differs_from_model", 1);
             }
             per_m.push(got);
         }
         baseline.push(per_m);
     }
-    let trie = trie_for(&case, &base_spec);
+    let base_sr = structure(ctx, &base, None);
+    let base_closed = base_sr.closure.is_empty() && base_sr.ranking.is_empty();
     let mut any_evicted = false;
     for n in nfb_list(ctx, &mut rng) {
         let spec = Spec { nfb: Some(n), ..case.spec };
@@ -266,7 +290,18 @@ pub fn run_c11(ctx: &mut Ctx, idx: u64) {
         for (hi, hay) in case.haystacks.iter().enumerate() {
             for (mi, &m) in Method::for_kind(kind).iter().enumerate() {
                 let exp = &baseline[hi][mi];
-                let (got, _) = p.search(m, hay, exp.len() + 1, loose_budget(hay.len(), ns));
+                let got = match p.try_search(m, hay, exp.len() + 1, loose_budget(hay.len(), ns)) {
+                    Ok(x) => x.0,
+                    Err(e) => {
+                        ctx.rep.violation(
+                            "setting-vs-default",
+                            format!("{} with num_free_blocks({n}) panics ({e}) where the default setting returns", m.name()),
+                            idx,
+                            mismatch_detail(&case, &spec, hay, m, &[], exp),
+                        );
+                        continue;
+                    }
+                };
                 ctx.rep.count("searches_compared", 1);
                 ctx.rep.count("matches_compared", exp.len() as u64);
                 if &got != exp {
@@ -279,16 +314,26 @@ pub fn run_c11(ctx: &mut Ctx, idx: u64) {
                 }
             }
         }
-        // "the other properties continue to hold": memory safety (closure), state count/shape,
-        // and for Standard the whole transition table
-        let sr = structure(ctx, &p, Some(&trie));
+        // "the other properties continue to hold": memory safety (closure), termination (ranking),
+        // state count; and for *every* haystack the same observable behaviour as the default-setting
+        // automaton (product walk of the two real automata)
+        let sr = structure(ctx, &p, None);
         structure_stats(&mut ctx.rep, &sr);
         let mut msgs: Vec<String> = Vec::new();
         msgs.extend(sr.closure.iter().map(|s| format!("memory safety: {s}")));
         msgs.extend(sr.ranking.iter().map(|s| format!("termination: {s}")));
-        msgs.extend(sr.table.iter().map(|s| format!("transition table: {s}")));
         if p.num_states() != ns {
             msgs.push(format!("num_states() = {} with this setting, {} with the default", p.num_states(), ns));
+        }
+        if msgs.is_empty() && base_closed {
+            let pr = crate::monitor::check_pair_equivalence(&p, &base, ctx.transition_cap());
+            ctx.rep.count("automaton_pairs_walked", 1);
+            ctx.rep.count("product_pairs_validated", pr.pairs as u64);
+            ctx.rep.count("dfa_transitions_validated", pr.transitions);
+            if pr.sampled {
+                ctx.rep.count("automaton_pairs_walked_with_sampled_symbols", 1);
+            }
+            msgs.extend(pr.differences.iter().map(|s| format!("behaviour differs from the default setting: {s}")));
         }
         if !msgs.is_empty() {
             ctx.rep.violation(
